@@ -365,7 +365,7 @@ CLAIMS = {
             "text": "listed_name_selectable / unknown_name_rejected follow from C08's filter_error_iff; every source the registry lists is in the regenerated FromString and UnmarshalJSON case lists (decide); SourceList.FromString's loop is characterised (accept iff all values known; unknown rejected). Exhaustive run over every listed name and source through the real API.",
             "note": "CLI plumbing of the same options belongs to C15."},
     "C14": {"technique": "Lean 4 kernel evaluation over regenerated label tables + codec correspondence + JSON round trips",
-            "text": "details_roundtrip: encoding/json's string codec is modelled byte for byte (quote with and without HTML escaping, scanner + unquote incl. surrogate pairs) and unquote (quote s) = sanitize s is proved for every byte string — details come back exactly, up to U+FFFD for bytes that are not UTF-8; labels_injective, status_roundtrip, unknown_label_rejected, out_of_range_not_decodable, struct-tag facts and listing_one_line_per_lint; result_roundtrip_partial with the JSON string codec abstracted. Tie: MarshalJSON/UnmarshalJSON of statuses and sources vs the model; real result sets with hostile details round-tripped (per-byte U+FFFD oracle); WriteJSON decoded line by line.",
+            "text": "details_roundtrip: encoding/json's string codec is modelled byte for byte (quote with and without HTML escaping, scanner + unquote incl. surrogate pairs) and unquote (quote s) = sanitize s is proved for every byte string — details come back exactly, up to U+FFFD for bytes that are not UTF-8; copy_through_is_decode_encode: EncodeRune (DecodeRune seq) = seq for every well-formed sequence (so the model's copy-through is the real decode/re-encode); labels_injective, status_roundtrip, unknown_label_rejected, out_of_range_not_decodable, struct-tag facts and listing_one_line_per_lint; result_roundtrip_partial with the JSON string codec abstracted. Tie: MarshalJSON/UnmarshalJSON of statuses and sources vs the model; real result sets with hostile details round-tripped (per-byte U+FFFD oracle); WriteJSON decoded line by line.",
             "note": "Partial: encoding/json itself is assumed (A-JSON) and validated, not modelled."},
     "C16": {"technique": "Lean 4 proofs over Nat (bit length, divisibility, Fermat soundness and completeness) + boundary correspondence",
             "text": "Each of the thirteen predicates is proved equivalent to its arithmetic meaning for all N, e; modSmallFactor_iff uses kernel-checked coverage of 2..751 by the regenerated prime table; fermat_sound (p*q = n) and fermat_complete for all n and round counts. Tie: kit certificates with chosen (N, e) at every boundary through the real framework, factorisations compared.",
